@@ -797,4 +797,221 @@ theorem recvU_spec (C : Cfg) (hC : 1 < C.stepsMax) (P : HsP) (u : Bool) (dc ds :
   | syscallErr => exact absurd a2 id
   | sslErr => exact absurd a2 id
 
+/-! ### the composition: one side blocks, the other polls -/
+
+structure SysU where
+  /-- the blocking side -/
+  g : Glue := {}
+  e : Hs
+  /-- channels and the polling peer -/
+  w : PeerW
+  /-- calls of the blocking side that threw or hit an assert -/
+  faults : Nat := 0
+
+/-- a step of the composition: the blocking side calls `Send(own payload, T)` / `Receive(n, T)`, `T < 0`; or - while
+the blocking side is between calls - the polling peer makes the next call of its program -/
+inductive ActU where
+  | block (k : Kind)
+  | poll
+  deriving DecidableEq, Repr
+
+def callOnU (C : Cfg) (P : HsP) (u : Bool) (dc ds : Bytes) (T : Int) (s : St Hs PeerW) : Kind → Bool × St Hs PeerW
+  | .send => let r := sendT C (blockWorld C P u dc ds) (engine P) s (ownPay u dc ds) T; (isOk r.1, r.2)
+  | .recv n => let r := receiveT C (blockWorld C P u dc ds) (engine P) s n T; (isOk r.1, r.2)
+
+/-- the observation ends with the peer's program: once it is exhausted nothing more happens -/
+def SysU.step (C : Cfg) (P : HsP) (u : Bool) (dc ds : Bytes) (T : Int) (y : SysU) (a : ActU) : SysU :=
+  match y.w.prog with
+  | [] => y
+  | k :: rest =>
+    match a with
+    | .block kb =>
+      let r := callOnU C P u dc ds T ⟨y.g, y.e, y.w⟩ kb
+      { g := r.2.g, e := r.2.e, w := r.2.w, faults := y.faults + (if r.1 then 0 else 1) }
+    | .poll => { y with w := { y.w.poll C P u dc ds k with prog := rest } }
+
+def SysU.run (C : Cfg) (P : HsP) (u : Bool) (dc ds : Bytes) (T : Int) (l : List ActU) (y : SysU) : SysU :=
+  l.foldl (SysU.step C P u dc ds T) y
+
+def SysU.init (P : HsP) (u : Bool) (segs : List Nat) (prog : List Kind) : SysU :=
+  { e := Hs.init P u, w := { ch := { segs := segs }, e := Hs.init P (!u), prog := prog } }
+
+def ActU.okU : ActU → Prop
+  | .block k => k.ok
+  | .poll => True
+
+def polls : List ActU → Nat
+  | [] => 0
+  | .poll :: l => polls l + 1
+  | .block _ :: l => polls l
+
+/-- half of `HsP.total`: the work of one engine -/
+def HsP.half (P : HsP) : Nat := P.k1 + P.k2 + P.k3 + 3
+
+theorem runU_nil (C : Cfg) (P : HsP) (u : Bool) (dc ds : Bytes) (T : Int) (y : SysU) :
+    SysU.run C P u dc ds T [] y = y := rfl
+theorem runU_cons (C : Cfg) (P : HsP) (u : Bool) (dc ds : Bytes) (T : Int) (a : ActU) (l : List ActU) (y : SysU) :
+    SysU.run C P u dc ds T (a :: l) y = SysU.run C P u dc ds T l (y.step C P u dc ds T a) := rfl
+theorem runU_append (C : Cfg) (P : HsP) (u : Bool) (dc ds : Bytes) (T : Int) (l1 l2 : List ActU) (y : SysU) :
+    SysU.run C P u dc ds T (l1 ++ l2) y = SysU.run C P u dc ds T l2 (SysU.run C P u dc ds T l1 y) := by
+  simp [SysU.run, List.foldl_append]
+
+theorem sysInv_initU (P : HsP) (u : Bool) (dc ds : Bytes) (segs : List Nat) (prog : List Kind) :
+    SysInv P dc ds (mkSys u (SysU.init P u segs prog).g (SysU.init P u segs prog).e (SysU.init P u segs prog).w) := by
+  have := sysInv_init P dc ds segs
+  cases u <;> exact this
+
+/-- the state of the composition between steps: the invariant of `Sys`; and unless the peer's program is exhausted,
+the blocking side is between calls with no error cached and none of its calls has failed -/
+structure UInv (P : HsP) (u : Bool) (dc ds : Bytes) (y : SysU) : Prop where
+  inv : SysInv P dc ds (mkSys u y.g y.e y.w)
+  ok : ProgOk y.w
+  live : y.w.prog = [] ∨ (ReadyU (ownPay u dc ds) ⟨y.g, y.e, y.w⟩ ∧ y.faults = 0)
+
+theorem exhausted_stays (C : Cfg) (P : HsP) (u : Bool) (dc ds : Bytes) (T : Int) (l : List ActU) (y : SysU)
+    (h : y.w.prog = []) : SysU.run C P u dc ds T l y = y := by
+  induction l with
+  | nil => rfl
+  | cons a l ih =>
+    rw [runU_cons]
+    have : y.step C P u dc ds T a = y := by simp [SysU.step, h]
+    rw [this, ih]
+
+/-- one step: the invariant is kept; the peer's work does not grow and, once the blocking side is finished, falls with
+every poll; a call of the blocking side leaves that side finished if the peer's program was long enough -/
+theorem stepU_spec (C : Cfg) (hC : 1 < C.stepsMax) (P : HsP) (u : Bool) (dc ds : Bytes) (hdc : dc ≠ [])
+    (hds : ds ≠ []) (T : Int) (hT : T < 0) (y : SysU) (hy : UInv P u dc ds y) (a : ActU) (ha : a.okU)
+    (hen : (∃ kb, a = .block kb) → y.e.stage < 3 → Enough P y.w) :
+    UInv P u dc ds (y.step C P u dc ds T a) ∧
+    work P (y.step C P u dc ds T a).w.e ≤ work P y.w.e ∧
+    y.w.e.stage ≤ (y.step C P u dc ds T a).w.e.stage ∧ (3 ≤ y.e.stage → 3 ≤ (y.step C P u dc ds T a).e.stage) ∧
+    (y.w.prog ≠ [] → (∃ kb, a = .block kb) → 3 ≤ (y.step C P u dc ds T a).e.stage) ∧
+    (y.w.prog ≠ [] → a = .poll → 3 ≤ y.e.stage → y.w.e.stage < 3 →
+      work P (y.step C P u dc ds T a).w.e < work P y.w.e) ∧
+    (a = .poll → (y.step C P u dc ds T a).e = y.e ∧ (y.step C P u dc ds T a).w.prog = y.w.prog.tail) := by
+  rcases hprog : y.w.prog with _ | ⟨k, rest⟩
+  · have : y.step C P u dc ds T a = y := by simp [SysU.step, hprog]
+    rw [this]
+    exact ⟨hy, Nat.le_refl _, Nat.le_refl _, fun h => h, fun h => absurd rfl h, fun h => absurd rfl h,
+      fun _ => ⟨rfl, by rw [hprog]; rfl⟩⟩
+  · have hlive : ReadyU (ownPay u dc ds) ⟨y.g, y.e, y.w⟩ ∧ y.faults = 0 := by
+      rcases hy.live with h | h
+      · rw [hprog] at h; cases h
+      · exact h
+    cases a with
+    | poll =>
+      have hstep : y.step C P u dc ds T .poll = { y with w := { y.w.poll C P u dc ds k with prog := rest } } := by
+        simp [SysU.step, hprog]
+      rw [hstep]
+      have hk : k.ok := hy.ok k (by rw [hprog]; exact List.mem_cons_self ..)
+      obtain ⟨i1, w1, p1, s1, c1⟩ := poll_spec C hC P u dc ds hdc hds y.g y.e y.w hy.inv k hk
+      refine ⟨⟨by dsimp only; rw [mkSys_prog]; exact i1, ?_, Or.inr ⟨?_, hlive.2⟩⟩, w1, s1, fun h => h,
+        (by intro _ h; obtain ⟨kb, hkb⟩ := h; cases hkb), ?_, fun _ => ⟨rfl, rfl⟩⟩
+      · intro k' hk'
+        exact hy.ok k' (by rw [hprog]; exact List.mem_cons_of_mem _ hk')
+      · exact hlive.1
+      · intro _ _ hfin hpeer
+        apply p1
+        have hnf : ¬ (mkSys u y.g y.e y.w).bothFinished := by
+          intro hb
+          cases u <;> simp [mkSys, Sys.bothFinished] at hb <;> omega
+        rcases can_progress P dc ds _ hy.inv hnf with hc | hc
+        · cases u with
+          | true => exfalso; have := hc.1; simp only [mkSys, if_true] at this; omega
+          | false => simpa [mkSys] using hc
+        · cases u with
+          | true => simpa [mkSys] using hc
+          | false => exfalso; have := hc.1; simp only [mkSys, Bool.false_eq_true, if_false] at this; omega
+    | block kb =>
+      have hstep : y.step C P u dc ds T (.block kb) =
+          { g := (callOnU C P u dc ds T ⟨y.g, y.e, y.w⟩ kb).2.g, e := (callOnU C P u dc ds T ⟨y.g, y.e, y.w⟩ kb).2.e,
+            w := (callOnU C P u dc ds T ⟨y.g, y.e, y.w⟩ kb).2.w,
+            faults := y.faults + (if (callOnU C P u dc ds T ⟨y.g, y.e, y.w⟩ kb).1 then 0 else 1) } := by
+        simp [SysU.step, hprog]
+      rw [hstep]
+      have key : DoneU P u dc ds ⟨y.g, y.e, y.w⟩ (callOnU C P u dc ds T ⟨y.g, y.e, y.w⟩ kb).2 ∧
+          ((callOnU C P u dc ds T ⟨y.g, y.e, y.w⟩ kb).2.w.prog = [] ∨
+            ((callOnU C P u dc ds T ⟨y.g, y.e, y.w⟩ kb).1 = true ∧
+              ReadyU (ownPay u dc ds) (callOnU C P u dc ds T ⟨y.g, y.e, y.w⟩ kb).2)) := by
+        cases kb with
+        | send =>
+          obtain ⟨s', e1, r1, d1⟩ := sendU_spec C hC P u dc ds hdc hds T hT ⟨y.g, y.e, y.w⟩ hlive.1 hy.inv hy.ok (hen ⟨_, rfl⟩)
+          simp only [callOnU, e1]
+          exact ⟨d1, Or.inr ⟨rfl, r1⟩⟩
+        | recv n =>
+          obtain ⟨d1, r1⟩ := recvU_spec C hC P u dc ds hdc hds T hT n ha ⟨y.g, y.e, y.w⟩ hlive.1 hy.inv hy.ok (hen ⟨_, rfl⟩)
+          simp only [callOnU]
+          refine ⟨d1, ?_⟩
+          rcases r1 with r1 | ⟨out, o1, _, o3⟩
+          · exact Or.inl r1
+          · exact Or.inr ⟨by rw [o1]; rfl, o3⟩
+      obtain ⟨d1, r1⟩ := key
+      refine ⟨⟨d1.inv, d1.ok, ?_⟩, d1.wk, d1.st, fun _ => d1.fin, fun _ _ => d1.fin,
+        (by intro _ h; cases h), (by intro h; cases h)⟩
+      rcases r1 with r1 | ⟨r1, r2⟩
+      · exact Or.inl r1
+      · exact Or.inr ⟨r2, by dsimp only; rw [r1, hlive.2]; rfl⟩
+
+/-- the peer polls while the blocking side has not called yet -/
+theorem run_polls (C : Cfg) (hC : 1 < C.stepsMax) (P : HsP) (u : Bool) (dc ds : Bytes) (hdc : dc ≠ [])
+    (hds : ds ≠ []) (T : Int) (hT : T < 0) : ∀ (pre : List ActU) (y : SysU), UInv P u dc ds y →
+      (∀ a ∈ pre, a = .poll) →
+      UInv P u dc ds (SysU.run C P u dc ds T pre y) ∧ (SysU.run C P u dc ds T pre y).e = y.e ∧
+      (SysU.run C P u dc ds T pre y).w.prog = y.w.prog.drop pre.length ∧
+      work P (SysU.run C P u dc ds T pre y).w.e ≤ work P y.w.e := by
+  intro pre
+  induction pre with
+  | nil => intro y hy _; exact ⟨hy, rfl, by simp [runU_nil], Nat.le_refl _⟩
+  | cons a pre ih =>
+    intro y hy hp
+    have ha : a = .poll := hp a (List.mem_cons_self ..)
+    subst ha
+    obtain ⟨i1, w1, _, _, _, _, e1⟩ := stepU_spec C hC P u dc ds hdc hds T hT y hy .poll trivial
+      (by intro h; obtain ⟨kb, hkb⟩ := h; cases hkb)
+    obtain ⟨ee, ep⟩ := e1 rfl
+    obtain ⟨j1, j2, j3, j4⟩ := ih _ i1 (fun b hb => hp b (List.mem_cons_of_mem _ hb))
+    rw [runU_cons]
+    refine ⟨j1, j2.trans ee, ?_, Nat.le_trans j4 w1⟩
+    rw [j3, ep, List.length_cons, List.drop_tail]
+
+/-- once the blocking side is finished: it stays finished, and every poll brings the peer nearer to the end of its
+handshake -/
+theorem run_after (C : Cfg) (hC : 1 < C.stepsMax) (P : HsP) (u : Bool) (dc ds : Bytes) (hdc : dc ≠ [])
+    (hds : ds ≠ []) (T : Int) (hT : T < 0) : ∀ (post : List ActU) (y : SysU), UInv P u dc ds y →
+      (∀ a ∈ post, a.okU) → 3 ≤ y.e.stage →
+      UInv P u dc ds (SysU.run C P u dc ds T post y) ∧ 3 ≤ (SysU.run C P u dc ds T post y).e.stage ∧
+      y.w.e.stage ≤ (SysU.run C P u dc ds T post y).w.e.stage ∧
+      ((SysU.run C P u dc ds T post y).w.prog = [] ∨ 3 ≤ (SysU.run C P u dc ds T post y).w.e.stage ∨
+        work P (SysU.run C P u dc ds T post y).w.e + polls post ≤ work P y.w.e) := by
+  intro post
+  induction post with
+  | nil => intro y hy _ hf; exact ⟨hy, hf, Nat.le_refl _, Or.inr (Or.inr (by simp [runU_nil, polls]))⟩
+  | cons a post ih =>
+    intro y hy hok hf
+    by_cases hprog : y.w.prog = []
+    · rw [exhausted_stays C P u dc ds T _ y hprog]
+      exact ⟨hy, hf, Nat.le_refl _, Or.inl hprog⟩
+    · obtain ⟨i1, w1, s1, f1, _, p1, _⟩ := stepU_spec C hC P u dc ds hdc hds T hT y hy a (hok a (List.mem_cons_self ..))
+        (by intro _ h; omega)
+      obtain ⟨j1, j2, j3, j4⟩ := ih _ i1 (fun b hb => hok b (List.mem_cons_of_mem _ hb)) (f1 hf)
+      rw [runU_cons]
+      refine ⟨j1, j2, Nat.le_trans s1 j3, ?_⟩
+      rcases j4 with j4 | j4 | j4
+      · exact Or.inl j4
+      · exact Or.inr (Or.inl j4)
+      · by_cases hpf : 3 ≤ y.w.e.stage
+        · exact Or.inr (Or.inl (by omega))
+        · right; right
+          cases a with
+          | poll =>
+            have := p1 hprog rfl hf (by omega)
+            simp only [polls]; omega
+          | block kb => simp only [polls]; omega
+
+theorem work_le_half (P : HsP) (h : Hs) (hw : WF P h) : work P h ≤ P.half := by
+  have := work_lt_fuel P h hw
+  unfold fuel at this
+  unfold HsP.half
+  omega
+
 end SockModel.Hs
